@@ -3,6 +3,7 @@ CONSTANTS
   HeomResets = TRUE
   FreeModeLocal = FALSE
   RestoreOnError = TRUE
+  SplitCopies = TRUE
   NefRecomputes = TRUE
   NrefPersists = FALSE
 SPECIFICATION Spec
